@@ -272,10 +272,11 @@ def e5(repo, res):
     for name, fn in alls.items():
         rets = [r for r in ast.walk(fn) if isinstance(r, ast.Return) and r.value is not None]
         form = None
-        if len(rets) == 1 and isinstance(rets[0].value, ast.Call) and isinstance(rets[0].value.func, ast.Name) and rets[0].value.args \
-                and ast.unparse(rets[0].value.args[0]) == "self":
-            lits = [a for a in list(rets[0].value.args[1:]) + [k.value for k in rets[0].value.keywords] if isinstance(a, ast.Constant) and isinstance(a.value, str)]
-            form = ("flattener", rets[0].value.func.id, lits[0].value if lits else None)
+        from repo import ret_value
+        rv = ret_value(fn, rets[0]) if len(rets) == 1 else None
+        if isinstance(rv, ast.Call) and isinstance(rv.func, ast.Name) and rv.args and ast.unparse(rv.args[0]) == "self":
+            lits = [a for a in list(rv.args[1:]) + [k.value for k in rv.keywords] if isinstance(a, ast.Constant) and isinstance(a.value, str)]
+            form = ("flattener", rv.func.id, lits[0].value if lits else None)
         elif any(isinstance(x, ast.Attribute) and x.attr == "children_all" for x in ast.walk(fn)):
             form = ("filter of children_all", None, None)
         typed_views = sorted({x.attr for x in ast.walk(fn) if isinstance(x, ast.Attribute) and isinstance(x.value, ast.Name) and x.value.id == "self"
